@@ -1215,7 +1215,7 @@ def gen_shapes(shapes, *, labelings=("distinct", "equal"), typed=(False,), famil
             mk_univ, labeler = LABELINGS[lname]
             for ty in typed:
                 univ = mk_univ(n)
-                nodes = B.shape_to_nodes(shape, (lambda i, d, s: (labeler(i, d, s)[0], "k1" if ty else None, labeler(i, d, s)[2])))
+                nodes = B.shape_to_nodes(shape, (lambda i, d, s: (labeler(i, d, s)[0], ("k1", "k2")[s % 2] if ty else None, labeler(i, d, s)[2])))
                 setup = [["new", ty, None]] + setup_ops(nodes, 0, ty)
                 yield dict(univ=univ, setup=setup, alts=single_ops(nodes, univ, ty, families), label=lname + "/extra", n=n)
 
@@ -1248,7 +1248,7 @@ def gen_exhaustive(nmax, *, labelings=("distinct", "equal", "clones"), typed=(Fa
                 mk_univ, labeler = LABELINGS[lname]
                 for ty in typed:
                     univ = mk_univ(n)
-                    nodes = B.shape_to_nodes(shape, (lambda i, d, s: (labeler(i, d, s)[0], "k1" if ty else None, labeler(i, d, s)[2])))
+                    nodes = B.shape_to_nodes(shape, (lambda i, d, s: (labeler(i, d, s)[0], ("k1", "k2")[s % 2] if ty else None, labeler(i, d, s)[2])))
                     setup = [["new", ty, None]] + setup_ops(nodes, 0, ty)
                     if lname == "clones":
                         # a labeling that collides under one parent is not a constructible tree
